@@ -1,19 +1,22 @@
 #!/bin/bash
-# tools/seeds_regress.sh [tier]  - for every stored seeded change: apply it to /repo, run the quick
-# check of its own property, expect exit 1 with a VIOLATION line, revert. Prints one line per seed.
+# tools/seeds_regress.sh [tier]  - for every stored seeded change: apply it to the repository
+# (WALLEYE_REPO, default /repo), run the check of its own property, expect exit 1 with a VIOLATION
+# line, revert. Prints one line per seed. (In a `vp run --with-repo` snapshot: WALLEYE_REPO=$VP_RUN_REPO.)
 tier=${1:-quick}
-cd /verif
-git -C /repo status --short | grep -q . && { echo "/repo not clean"; exit 2; }
+cd "$(dirname "$0")/.." || exit 2
+R=${WALLEYE_REPO:-/repo}
+mkdir -p .work
+git -C $R status --short | grep -q . && { echo "$R not clean"; exit 2; }
 miss=0
 for d in seeded/*/; do
   name=$(basename $d)
   prop=$(python3 -c "import json;print(json.load(open('$d/meta.json'))['property'])")
-  if ! git -C /repo apply $PWD/$d/patch.diff 2>/dev/null; then echo "$name: PATCH DOES NOT APPLY"; miss=$((miss+1)); continue; fi
+  if ! git -C $R apply $PWD/$d/patch.diff 2>/dev/null; then echo "$name: PATCH DOES NOT APPLY"; miss=$((miss+1)); continue; fi
   ./bin/check $prop $tier > .work/regress-$name.log 2>&1; rc=$?
-  git -C /repo checkout -- .
+  git -C $R checkout -- .
   v=$(grep -c '^VIOLATION' .work/regress-$name.log)
   if [ $rc -eq 1 ] && [ $v -gt 0 ]; then echo "$name: caught by $prop $tier ($(grep -m1 'violation classes' .work/regress-$name.log | cut -c1-120))"; else echo "$name: MISSED by $prop $tier (exit $rc)"; miss=$((miss+1)); fi
 done
-git -C /repo status --short
+git -C $R status --short
 echo "missed: $miss"
 exit $miss
